@@ -59,7 +59,8 @@ def strategy_case(draw):
         k = draw(st.integers(1, n - 1))
         c["idx"] = draw(st.lists(st.integers(0, n - 1), min_size=k, max_size=k, unique=True))
         c["from1"] = draw(st.booleans())
-        c["idx_as"] = draw(st.sampled_from(["list", "array", "file"]))
+        c["idx_as"] = draw(st.sampled_from(["list", "array", "file", "csv"]))
+        c["positional"] = draw(st.booleans())
     elif op == "flip":
         c["axes"] = draw(st.one_of(st.sampled_from(["x", "y", "z"]), st.lists(st.sampled_from(["x", "y", "z"]), min_size=1, max_size=4)))
     elif op == "crop":
@@ -209,13 +210,22 @@ def run(case):
                 i_in = list(given)
             elif c["idx_as"] == "array":
                 i_in = np.array(given)
+            elif c["idx_as"] == "csv":
+                # the table form: one row per tilt with a ToBeRemoved flag (no numbering involved, whatever numbered_from_1 says)
+                with open("idx.csv", "w") as f:
+                    f.write("TiltAngle,ToBeRemoved\n" + "".join(f"{t * 3.0 - 30:.1f},{t in set(idx0)}\n" for t in range(n)))
+                i_in = "idx.csv"
             else:
                 with open("idx.txt", "w") as f:
                     f.write("".join(f"{v}\n" for v in given))
                 i_in = "idx.txt"
             out.label(f"idx:{c['idx_as']}", "from1" if c["from1"] else "from0", "single_index" if len(given) == 1 else "multi_index")
             keep_idx = i_in.copy() if isinstance(i_in, np.ndarray) else None
-            fn = lambda x: tiltstack.remove_tilts(x, i_in, numbered_from_1=c["from1"], output_file=outfile, **kw)
+            if c.get("positional"):  # the documented order of the first four parameters
+                out.label("remove:positional_arguments")
+                fn = lambda x: tiltstack.remove_tilts(x, i_in, c["from1"], outfile, **kw)
+            else:
+                fn = lambda x: tiltstack.remove_tilts(x, i_in, numbered_from_1=c["from1"], output_file=outfile, **kw)
         elif op == "flip":
             axes = c["axes"]
             exp = I
